@@ -35,10 +35,44 @@ def enumerate_graphs(max_stmts, max_inputs):
     yield from rec(0, [])
 
 
+def enumerate_clause_graphs(max_stmts):
+    """Typed graphs over one input dataset in which scalar results are read inside clause bodies: stmts = [(name, persistent,
+    reads, kind)] with kind in const (scalar literal), sfrom (scalar from scalar), mul (dataset * 2), calc / filter (dataset
+    clause whose body reads a scalar result).  Only graphs with at least one clause statement are produced."""
+    def rec(k, stmts, types):
+        if k > 0 and any(s[3] in ("calc", "filter") for s in stmts):
+            yield list(stmts)
+        if k == max_stmts:
+            return
+        name = "R_%d" % (k + 1)
+        D = ["DS_1"] + [n for n, t in types.items() if t == "D"]
+        Sc = [n for n, t in types.items() if t == "S"]
+        opts = [("const", [], "S")] + [("sfrom", [x], "S") for x in Sc] + [("mul", [a], "D") for a in D]
+        opts += [(kind, [a, x], "D") for kind in ("calc", "filter") for a in D for x in Sc]
+        for kind, reads, typ in opts:
+            for pers in (False, True):
+                stmts.append((name, pers, reads, kind)); types[name] = typ
+                yield from rec(k + 1, stmts, types)
+                stmts.pop(); del types[name]
+    yield from rec(0, [], {})
+
+
 def render(stmts, order=None):
     lines = []
-    for name, pers, reads in stmts:
-        expr = reads[0] + " * 2" if len(reads) == 1 else "%s + %s" % (reads[0], reads[1])
+    for st in stmts:
+        name, pers, reads = st[:3]
+        kind = st[3] if len(st) > 3 else None
+        expr = None
+        if kind is None or kind == "mul":
+            expr = reads[0] + " * 2" if len(reads) == 1 else "%s + %s" % (reads[0], reads[1])
+        elif kind == "const":
+            expr = str(1 + int(name[2:]))
+        elif kind == "sfrom":
+            expr = "%s + 1" % reads[0]
+        elif kind == "calc":
+            expr = "%s [calc Me_1 := Me_1 + %s]" % (reads[0], reads[1])
+        elif kind == "filter":
+            expr = "%s [filter Me_1 > %s]" % (reads[0], reads[1])
         lines.append("%s %s %s;" % (name, "<-" if pers else ":=", expr))
     if order is not None:
         lines = [lines[i] for i in order]
@@ -93,10 +127,12 @@ def work_model(shard, nshards, max_stmts, max_inputs, all_orders):
     from vtlengine.AST.DAG import DAGAnalyzer
     part = core.Part()
     states = transitions = 0
-    for gi, stmts in enumerate(enumerate_graphs(max_stmts, max_inputs)):
+    for gi, stmts in enumerate(itertools.chain(enumerate_graphs(max_stmts, max_inputs), enumerate_clause_graphs(max_stmts))):
         if gi % nshards != shard:
             continue
         n = len(stmts)
+        if len(stmts[0]) > 3:
+            part.hist["clause_graphs"] += 1
         orders = list(itertools.permutations(range(n))) if all_orders and n <= 3 else [tuple(range(n)), tuple(reversed(range(n)))] if n > 1 else [(0,)]
         for order in orders:
             script = render(stmts, order)
@@ -245,7 +281,7 @@ def work_traces_generated(shard, nshards, stride=1):
     S = eng.structures(*[eng.structure("DS_%d" % i, comps) for i in (1, 2)])
     def dps():
         return {"DS_%d" % i: eng.frame(comps, [{"Id_1": 1, "Me_1": float(i)}, {"Id_1": 2, "Me_1": 2.5}]) for i in (1, 2)}
-    for gi, stmts in enumerate(enumerate_graphs(3, 2)):
+    for gi, stmts in enumerate(itertools.chain(enumerate_graphs(3, 2), enumerate_clause_graphs(3))):
         if gi % nshards != shard or (gi // nshards) % stride:
             continue
         n = len(stmts)
@@ -260,7 +296,7 @@ def work_traces_generated(shard, nshards, stride=1):
             log, res_p, res_all = run_traced(script, dict(data_structures=S, datapoints=dps()))
         except Exception as e:  # noqa
             part.fail("trace:run_failed:%s" % eng.classify_exc(e), case, str(e)[:200]); continue
-        part.case("trace:g%d" % gi, n >= 2, sample=dict(script=script, history=log[:12]) if len(part.samples) < 2 else None, labels=["trace_generated", "n=%d" % n])
+        part.case("trace:g%d" % gi, n >= 2, sample=dict(script=script, history=log[:12]) if len(part.samples) < 2 else None, labels=["trace_generated", "n=%d" % n] + (["scalar_in_clause"] if len(stmts[0]) > 3 else []))
         part.hist["traces_validated_against_impl"] += 1
         msg = check_trace(log, reads, stmt_order, inputs)
         if msg:
@@ -312,7 +348,7 @@ def _dispatch(fname, args):
 
 def run(ctx):
     q = ctx.quick
-    ctx.rule = ("Part A: every dependency graph with <=%d statements over <=2 global inputs (fan-in 1-2, every persistent mask), in %s textual orders, replayed against an abstract table store; "
+    ctx.rule = ("Part A: every dependency graph with <=%d statements over <=2 global inputs (fan-in 1-2, every persistent mask) and every typed graph of that size in which scalar results are read inside calc/filter bodies, in %s textual orders, replayed against an abstract table store; "
                 "Part B: real create/drop histories of run() (catalog-diff connection proxy) for graphs with <=3 statements (quick: every 5th, thorough: all) and a slice of the corpus; non-trivial = graph with a table read by >=2 statements and >=3 statements "
                 "(traces: >=2 statements)" % (3 if q else 4, "identity and reversed" if q else "all (n<=3) / identity and reversed"))
     ctx.exhaustive = True
